@@ -515,6 +515,9 @@ func forceTypes(m *ir.Module) {
 
 func c03Constants(r *fw.Rec) {
 	m := ir.NewModule()
+	// type definitions in the order of their names (the parser keeps them sorted, the constructed module as created)
+	PE := m.NewTypeDef("PE", &types.StructType{Packed: true}).(*types.StructType)
+	PT := m.NewTypeDef("PT", func() types.Type { t := types.NewStruct(types.I8, types.I32); t.Packed = true; return t }()).(*types.StructType)
 	T := m.NewTypeDef("T", types.NewStruct(types.I32, types.I8Ptr))
 	g := m.NewGlobalDef("g", ci(types.I32, 0))
 	h := m.NewGlobalDef("h", ci(types.I64, 1))
@@ -581,6 +584,15 @@ func c03Constants(r *fw.Rec) {
 		def(constant.NewCharArrayFromString("hi\x00\xff\"\\"))
 		def(constant.NewStruct(types.NewStruct(types.I32, types.Float), ci(types.I32, 1), constant.NewFloat(types.Float, 2)))
 		def(constant.NewStruct(T.(*types.StructType), ci(types.I32, 1), constant.NewNull(types.I8Ptr)))
+		// packed structs: literal, identified, empty, and nested in other aggregates
+		pk := types.NewStruct(types.I8, types.I32)
+		pk.Packed = true
+		def(constant.NewStruct(pk, ci(types.I8, 1), ci(types.I32, 2)))
+		def(constant.NewStruct(PT, ci(types.I8, 1), ci(types.I32, 2)))
+		def(constant.NewStruct(PE))
+		def(constant.NewStruct(&types.StructType{Packed: true}))
+		def(constant.NewArray(types.NewArray(2, PT), constant.NewStruct(PT, ci(types.I8, 3), ci(types.I32, 4)), constant.NewStruct(PT, ci(types.I8, 5), ci(types.I32, 6))))
+		def(constant.NewStruct(types.NewStruct(PT, pk, PE), constant.NewStruct(PT, ci(types.I8, 7), ci(types.I32, 8)), constant.NewStruct(pk, ci(types.I8, 9), ci(types.I32, 10)), constant.NewStruct(PE)))
 		def(constant.NewVector(types.NewVector(2, types.I32), ci(types.I32, 1), ci(types.I32, 2)))
 	})
 	guard("expr-binary", func() {
